@@ -342,7 +342,7 @@ class C09(Prop):
           'capacity assigned: charge_at vs the state the constraints bound vs the recurrence for the NEW parameters); every storage constraint '
           'fun / jac on the flat flow, its (1,n) row, integer-typed, and through a one-child DeviceSet; histories: cost / deriv / hess of one '
           'storage device, then the state of the same and of NEW storage / thermal devices with the same (sustainment, n)')
-  sizes = {'quick': 800, 'thorough': 20000}
+  sizes = {'quick': 800, 'thorough': 12000}
   assumptions = ['oracle: the documented recurrence as a Python loop over exact fractions, compared at 1e-9 of the data scale']
 
   def __init__(self):
